@@ -138,6 +138,7 @@ class CMod:
     def __init__(self, ode, schemes=None, workdir=None, **kw):
         from . import gx
 
+        self.n_missing_values = len(kw.get("missing_values") or {})
         self.code = gx.c_code(ode, schemes, **kw)
         self.lib, self.dir = gx.compile_c(self.code, workdir)
         self.n_states = ctypes.c_int.in_dll(self.lib, "NUM_STATES").value
@@ -172,7 +173,7 @@ class CMod:
 
         s = gx.c_array(len(states), states)
         p = gx.c_array(len(params), params)
-        n = self.n_monitored if fn == "monitor_values" else self.n_states
+        n = self.n_monitored if fn == "monitor_values" else (self.n_missing_values if fn == "missing_values" else self.n_states)
         v = gx.c_array(n, [math.nan] * n)
         f = getattr(self.lib, fn)
         f.restype = None
